@@ -1,5 +1,6 @@
 import CobaldVerif.Drive.C08
 import CobaldVerif.Drive.C15
+import CobaldVerif.Generated.Src
 import CobaldVerif.Model.Periodic
 
 namespace Cobald.Drive.C09
@@ -22,7 +23,10 @@ def handle (j : Json) : Except String Json := do
   -- demand, one adjustment per interval) is replayed on the model of the adjustment (C15)
   if kind == "factory_env" then return ← C15.handle j
   let interval ← getRat j "interval"
-  let pre ← getBool j "pre"
+  -- whether the service sleeps before its first action is read off the source (Generated/Src.lean)
+  let pre := match kind with
+    | "linear" => Gen.sleepsFirstLinear | "rel" => Gen.sleepsFirstRel | "switch" => Gen.sleepsFirstSwitch
+    | "stepwise" => Gen.sleepsFirstStepwise | "buffer" => Gen.sleepsFirstBuffer | _ => Gen.sleepsFirstFactory
   let evs ← (← getArr j "events").toList.mapM parseEv
   let nsteps := (evs.filter (fun e => match e with | .step => true | _ => false)).length
   let times := (List.range nsteps).map (fun k => jRat (actTime pre interval k))
